@@ -36,7 +36,7 @@ func TestDebugPrio(t *testing.T) {
 			fam = f
 		}
 		rng := r.Cfg.caseRNG(fam, i)
-		sc := genPrioScenario(rng, prioGen{Vers: vers, Dividers: allDividers, Mode: mode})
+		sc := genPrioScenario(rng, prioGen{Vers: vers, Dividers: allDividers, Mode: mode, Starve: os.Getenv("VERIF_DEBUG_STARVE") != ""})
 		if os.Getenv("VERIF_DEBUG_FILTER") == "A" {
 			hasA := false
 			for _, op := range sc.Script {
